@@ -1,6 +1,26 @@
 """Per-property manifest entries (edited by hand, rendered by mkmanifest.py)."""
 T_PBT = "property-based testing (Hypothesis): "
 CHECKS = {
+ "C01": {
+  "technique": T_PBT + "model-based update histories (generated operation sequences) with a validity invariant after every step",
+  "text": "Generated update histories (mineral x accepted regime x texture x parameters x velocity-gradient history x pathline x partition into 1..100 updates issued via update_orientations / update_all / regime-switching callback) with the snapshot-validity invariant of the statement (shape, finiteness, simplex, entries in [-1,1], handedness, max|A.A^T-I| <= 5e-3+1e-3(N+2 strain), append-only, earlier snapshots byte-identical) checked after every update; default-constructed minerals checked for validity and seed reproducibility. Exploration: hundreds of histories per quick run, no proof.",
+  "note": "Strain integral by 201-point trapezoid per update; IterationError from LSODA counts as 'rejected'. Known finding matrix_diffusion: orthonormality part excluded for that regime only (all other parts still checked).",
+ },
+ "C02": {
+  "technique": T_PBT + "differential testing against an independent reference model of the published D-Rex equations; compiled vs interpreted source",
+  "text": "core.derivatives is compared on generated (fabric, regime, orientations, volumes, velocity gradient, p, n, lambda*, M*, phi) with vlib/ref_drex.py, an independent vector-form transcription of Kaminski & Ribe 2001 / Kaminski et al. 2004 / Fraters & Billen 2021 (tolerance 1e-10*(1+M*); measured agreement 2e-15), and with the same source executed under NUMBA_DISABLE_JIT=1 in a worker process. Exploration over ~1500 (quick) / 1e5 (thorough) cases.",
+  "note": "Reference model is trusted as the statement of the published equations. Excluded and counted: grains with max activity <1e-9, exact inac/min activity ties; volume rates not compared when |gamma|<1e-6 (non-Lipschitz energy).",
+ },
+ "C03": {
+  "technique": T_PBT + "algebraic invariants and metamorphic relations (linearity, pair decomposition) over generated solver inputs incl. degenerate grains",
+  "text": "Generated solver inputs (all fabrics, both dislocation regimes, axis-aligned and near-aligned grains under axis-aligned flows, zero volumes, dominant grains, zero gradient, scales 0.1..10, up to 1e5 grains) checked for: finite outputs and no exception, A^T.Adot skew (1e-12), sum of volume rates 0 (1e-11(1+M*)), dead grains exactly 0, exact linearity in M* and phi, orientation rates independent of M*, phi, f, N-grain volume rates reconstructed from two-grain calls (pair decomposition), growth sign vs volume-weighted mean energy.",
+  "note": "Slip invariants in the denormal range (0<|I|<1e-290, 1/I overflows) are excluded and counted: unreachable from callers. Growth-sign oracle uses both solver-derived pair energies and the reference model.",
+ },
+ "C06": {
+  "technique": T_PBT + "differential testing of returned F against independent ODE solutions (DOP853, expm) over generated histories",
+  "text": "For generated histories (any mineral/regime/parameters, non-identity starting F, constant/time-/position-dependent L along generated pathlines, 1..12 updates, single and bulk update) the returned F is compared after every update with scipy DOP853 (rtol 1e-12) and expm; det F vs exp(int tr L); independence from mineral/parameters; split interval vs whole; bulk multiphase vs single. Bound: the property's 5e-3+1e-3(N+2 strain) at default tolerances, 1e-6 with rtol=1e-10 passed through.",
+  "note": "Trusted: scipy solve_ivp/expm. Observed residual <= 5% of the bound on the healthy tree.",
+ },
  "C11": {
   "technique": T_PBT + "round trips, differential vs einsum reference, exhaustive index/projector enumeration",
   "text": "Generated-input search (thousands of symmetric 6x6 matrices, 21-vectors, rotations incl. axis-aligned/near-aligned, 3x3 matrices incl. singular/rank-1/zero) against explicit oracles: own Voigt index map + einsum for the tensor/contraction/rotation laws, exact inverse pairs, isometry, group action, projector matrices built from all 21 basis vectors (idempotent, symmetric, nested, ranks 13/9/6/5), polar-factor validity in the documented order, invariants vs eigenvalues. Exploration only: no proof of absence.",
